@@ -423,6 +423,20 @@ def crStep (tailZeroWidth : Bool) (line : List Char) : List Char :=
 end Line
 
 /-!
+## Relativized diff-stat lines (`src/handlers/diff_stat.rs`)
+
+`relativize_path_in_diff_stat_line`: ` {formatted_path}{padding}{suffix}` — the path (plain, or an
+OSC 8 hyperlink around it), spaces, and the `| N +++---` part of git's line copied verbatim
+(`Generated.StyleTables.statSuffixVerbatim`).
+-/
+namespace Line
+
+def statLine (path : Piece) (pad : Nat) (suffix : List Char) : List Char :=
+  ' ' :: (path.chars ++ List.replicate pad ' ' ++ suffix)
+
+end Line
+
+/-!
 ## Decorations (`src/handlers/draw.rs`)
 
 Each `write_*` function as the ordered list of what it writes: painted pieces (`Style::paint`, via
